@@ -15,6 +15,12 @@ var Events = []interface{}{
 type EventLoadAdded struct {
 	Entry ipfslog.Entry
 	Hash  cid.Cid
+
+	// LogID is the id of the log the replicator fetches for. The replicators of
+	// all the stores of an instance emit on one bus; the entry itself does not
+	// tell where an event comes from, the log id it carries is chosen by
+	// whoever wrote it
+	LogID string
 }
 
 // NewEventLoadAdded Creates a new EventLoadAdded event
@@ -28,6 +34,9 @@ func NewEventLoadAdded(h cid.Cid, entry ipfslog.Entry) EventLoadAdded {
 // EventLoadProgress An event triggered when entries have been loaded
 type EventLoadProgress struct {
 	Entry ipfslog.Entry
+
+	// LogID is the id of the log the replicator fetches for (see EventLoadAdded)
+	LogID string
 }
 
 // NewEventLoadProgress Creates a new EventLoadProgress event
